@@ -524,6 +524,7 @@ fn variants(tier: Tier) -> Vec<(&'static str, usize)> {
 }
 
 pub fn run(ctx: &Ctx) {
+    super::modes::run(ctx);
     // prefix matching
     let mut blocks = vec![];
     for b in 0..=255u8 {
@@ -575,6 +576,7 @@ pub fn replay(family: &str, case: &Value) -> Option<CaseResult> {
     match family {
         "prefix_match" => replay_with::<MatchBlock>(case, run_match_block),
         "node_unknown_destination" => replay_with::<NodeCase>(case, run_node),
+        "mode_matrix" => replay_with::<super::modes::ModeCase>(case, super::modes::run_case),
         f if f.starts_with("table_") => {
             let fam = f.trim_end_matches("-audit");
             let family: &'static str = match fam {
